@@ -23,6 +23,10 @@ func jobsFor(prop, tier string) []*Job {
 		if thorough {
 			nmax, wmax = 4, 6
 		}
+		for n := 2; n <= nmax; n++ {
+			add(&Job{Name: fmt.Sprintf("O1-step/n=%d", n), Pkg: "roundrobin", Harness: "VerifC01Step", Params: p("n", n), Inductive: true, TimeoutS: 120, Unwind: 2*n + 3,
+				Bounds: fmt.Sprintf("one nextServer from an arbitrary iterator state: n=%d, weights symbolic in [0,2^31) not all zero, index in [-1,n), 0<=currentWeight<=max, step g symbolic >= 1 (stub of weightGcd); loop needs at most 2n+1 iterations (unwinding bound)", n)})
+		}
 		for n := 1; n <= nmax; n++ {
 			add(&Job{Name: fmt.Sprintf("O2-window/n=%d,wmax=%d", n, wmax), Pkg: "roundrobin", Harness: "VerifC01Window",
 				Params: p("n", n, "wmax", wmax), Unwind: 2*n*wmax + 8, IncKind: "cvc5",
